@@ -3132,6 +3132,12 @@ class NetCDFRead(IORead):
 
         bounds_ncvar = g["variable_attributes"][coord_ncvar].get("bounds")
 
+        if bounds_ncvar is not None and g["has_groups"]:
+            # Replace a flattened name with an absolute name (CF>=1.8)
+            bounds_ncvar = g["flattener_variables"].get(
+                bounds_ncvar, bounds_ncvar
+            )
+
         if (
             bounds_ncvar is not None
             and bounds_ncvar not in g["internal_variables"]
